@@ -889,7 +889,9 @@ class StringNode(LeafNode):
         if isinstance(node, StringNode):
             if self.object == node.object:
                 return Match(self, node, 0)
-            elif len(self.object) == 1 and len(node.object) == 1:
+            elif (isinstance(self.object, int) or len(self.object) == 1) and \
+                    (isinstance(node.object, int) or len(node.object) == 1):
+                # single characters, or single elements of a `bytes` object (which are ints)
                 return Match(self, node, 1)
             return StringEdit(self, node)
         else:
